@@ -1,17 +1,17 @@
 SPECIFICATION Spec
 CONSTANTS
-  MaxTok = 17
-  MaxDecls = 3
-  MinDecls = 3
-  TypeNames <- TN
-  ProcNames <- PN
-  VarNames <- VN
+  MaxTok = 22
+  MaxDecls = 1
+  MinDecls = 1
+  TypeNames <- TN0
+  ProcNames <- PN0
+  VarNames <- VN1
   Faults <- NoFaults
   OnlyFaulty = FALSE
   Grow = 0
   Shadowing = FALSE
   ForceAfter = 0
-  Slim = FALSE
+  Slim = TRUE
   Balance = FALSE
 CONSTRAINT SizeBound
 INVARIANTS Balanced UsesBound EmitInv
